@@ -41,8 +41,8 @@ open EG EG.Rect EG.Tgt EG.Generated EG.RectSrcPrelude EG.AdaptSrcPrelude EG.C03.
 /-- unfold every prelude primitive of AdaptSrcPrelude (and the listed definitions) -/
 macro "adapt_simp" "[" ls:Lean.Parser.Tactic.simpLemma,* "]" : tactic =>
   `(tactic| simp only [Pixel_mk, Pixel_0, Pixel_1, tuple_0, tuple_1, PhantomData_mk, into_iter, iter_map, iter_filter,
-      iter_zip, core_iter_repeat, iter_of_next_map, iter_next, iter_nth, Rectangle_new, Rectangle_intersection,
-      Rectangle_translate, Rectangle_contains, Rectangle_points, Rectangle_eq, Rectangle_ne, Point_zero, Point_neg,
+      iter_zip, core_iter_repeat, iter_of_next_map, listiter_next, listiter_nth, Rectangle_new, Rectangle_intersection,
+      Rectangle_translate, Rectangle_contains, Rectangle_points, Rectangle_eq, Rectangle_ne, point_zero, Point_neg,
       Point_add, Point_sub, DrawTargetT_bounding_box, DrawTargetT_draw_iter, DrawTargetT_fill_contiguous,
       DrawTargetT_fill_solid, DrawTargetT_clear, Rectangle_top_left, Rectangle_size, $ls,*])
 
@@ -97,6 +97,8 @@ theorem Clipped_fill_contiguous_src_eq_model (B r : Rect) (area : Rect) (cs : Li
         (croppedList cs area.size (((r.intersection B).intersection area).translate (-area.tl))))
   rw [contiguous_Cropped_collect_src_eq_model cs _ _ fuel hf]
   by_cases h : (r.intersection B).intersection area = area <;> simp [h]
+
+example : CropFuel 5 [1, 2, 3, 4] := by decide
 
 theorem Clipped_fill_solid_src_eq_model (B r : Rect) (area : Rect) (c : Color) :
     AdaptSrc.Clipped_fill_solid (AdaptSrc.DrawTargetExt_clipped B r) area c
@@ -232,6 +234,8 @@ theorem zip_replicate_fuel {α β : Type} (l : List α) (c : β) (fuel : Nat) (h
       simp only [List.length_cons, List.replicate_succ, List.zip_cons_cons]
       rw [ih n (by simpa using h)]
 
+example : ([1, 2, 3] : List Nat).length ≤ 5 := by decide
+
 /-- default `fill_solid` = `fill_contiguous(area, repeat(color))`: a `fill_contiguous` call whose stream is `fuel`
 copies; under the default `fill_contiguous` it writes what `Call.lowerDefault` says for `fill_solid`, for ANY
 sufficient fuel (the `zip` with the points of the area cuts the stream). -/
@@ -351,6 +355,6 @@ example : (srcLowerStack ⟨⟨-3, -2⟩, ⟨7, 5⟩⟩
     (.fillContiguous ⟨⟨-2, -1⟩, ⟨4, 3⟩⟩ [1, 2, 3, 4, 5, 6, 7])) =
     .fillContiguous ⟨⟨-1, -1⟩, ⟨3, 2⟩⟩ [5, 6, 7] := by decide
 
--- [V] trusted by the source tie of the adapters: the prelude EG/Model/AdaptSrcPrelude.lean (an `IntoIterator` argument is the finite list of its items, `map` / `filter` / `zip` are the list operations, `repeat` is cut by explicit fuel, an iterator adapter whose `next` is `self.iter.next().map(F)` maps `F`, a generic parent target is its `bounding_box()` and a call on it is the `Call` value, `Rectangle`'s methods are the hand model's [their own source tie: C16's Generated*.lean, `intersection` / `contains` under `FitsI32`], `Iterator::next` / `nth` of a list iterator, a crate-defined iterator with a stateful `next` collected on explicit fuel [`iterator::contiguous::Cropped`: its `new` / `next` ARE regenerated and proved equal to the hand model, GeneratedCroppedIter.lean], `usize` as `Nat` with `i32 as usize` sign-extending); the parser and the type-directed method resolution of tools/tr_adapt.py / tr_rect.py (demonstrated by tools/tests/adapt_translator_demo.py: 12 mutations each break a theorem, 6 harmless rewrites break none); that trait-method dispatch picks the impls the translator picks (the adapter's own `impl DrawTarget`, else the trait default; `Cropped`'s box through the blanket `impl<T: OriginDimensions> Dimensions for T`)
+-- [V] trusted by the source tie of the adapters: the prelude EG/Model/AdaptSrcPrelude.lean (an `IntoIterator` argument is the finite list of its items, `map` / `filter` / `zip` are the list operations, `repeat` is cut by explicit fuel, an iterator adapter whose `next` is `self.iter.next().map(F)` maps `F`, a generic parent target is its `bounding_box()` and a call on it is the `Call` value, `Rectangle`'s methods are the hand model's [their own source tie: C16's Generated*.lean, `intersection` / `contains` under `FitsI32`], `Iterator::next` / `nth` of a list iterator, a crate-defined iterator with a stateful `next` collected on explicit fuel [`iterator::contiguous::Cropped`: its `new` / `next` ARE regenerated and proved equal to the hand model, GeneratedCroppedIter.lean], `usize` as `Nat` with `i32 as usize` sign-extending); the parser and the type-directed method resolution of tools/tr_adapt.py / tr_rect.py (demonstrated by tools/tests/adapt_translator_demo.py: 19 mutations and 4 shape changes each break a theorem, 8 harmless rewrites break none); that trait-method dispatch picks the impls the translator picks (the adapter's own `impl DrawTarget`, else the trait default; `Cropped`'s box through the blanket `impl<T: OriginDimensions> Dimensions for T`)
 
 end EG.C03.GenAdapters
